@@ -57,6 +57,17 @@ func baseOptions(env *core.Env, i int, r *rand.Rand) sim.Options {
 	}
 }
 
+// withResync turns a case into the second configuration of DESIGN 3.2: the informers' periodic
+// resync is on (every 10 virtual minutes, the production default), which re-delivers every cached
+// object as an update; the safety monitors run as usual, liveness clauses are masked by design.
+func withResync(o sim.Options, i int) sim.Options {
+	if i%9 == 8 {
+		o.Resync = 10 * time.Minute
+		o.Horizon = 45 * time.Minute
+	}
+	return o
+}
+
 func jobCfg(ttl, pending, force int64) *configv1alpha1.JobExecutionConfig {
 	return &configv1alpha1.JobExecutionConfig{
 		DefaultTTLSecondsAfterFinished: pointer.Int64(ttl),
@@ -87,6 +98,9 @@ func runSim(spec *simSpec, env *core.Env, res *core.Result) {
 		var sc simCase
 		if i < own {
 			sc = spec.Build(env, i, r)
+			if !sc.Opt.Cron {
+				sc.Opt = withResync(sc.Opt, i)
+			}
 		} else {
 			k := (i - own) % len(simPool)
 			sc = simPool[k](env, i, r)
@@ -318,7 +332,7 @@ func init() {
 			o.JobCfg = jobCfg([]int64{0, 30, 120}[r.Intn(3)], 900, []int64{0, 30}[r.Intn(2)])
 			o.Horizon = 2 * time.Hour
 			return simCase{Opt: o, Prof: sim.Profile{MaxJobConfigs: 1, MinJobs: 1, MaxJobs: 5, OwnedBias: 30, Policies: []execution.ConcurrencyPolicy{execution.ConcurrencyPolicyAllow}, Parallel: 50,
-				MaxAttempts: 2, MaxRetryDelay: 5, KillPct: 15, DeletePct: 60, StartAfterPct: 10, TTL: []int64{-1, 0, 1, 20, 60}}}
+				MaxAttempts: 2, MaxRetryDelay: 5, KillPct: 15, DeletePct: 60, StartAfterPct: 10, TTL: []int64{-1, 0, 1, 20, 60}, ForeignFinalizerPct: 20}}
 		},
 		NonTrivial: func(w *sim.World) bool { return w.Mon.Evals["C13"] > 0 },
 	})
